@@ -182,7 +182,12 @@ def run(ctx):
             if 'ulp=1' in dd and 'scale=-' in dd:
                 ctx.dist['decode-1ulp (C01 D12)'] += 1
             else:
-                ctx.violation({'kind': 'C02-roundtrip', 'case': case}, 'decode(encode(v)) != canon(v), ids=%s' % c['ids'])
+                rec = {'kind': 'C02-roundtrip', 'case': case}
+                if i and i[0] == 'err' and i[1] == 9 and P.wide_field_cause(c):
+                    # D26: the encoder wrote a field wider than 64 bits (e.g. 204YYY widths accumulating through a
+                    # sequence that opens 204 without closing it), the decoder cannot read it back
+                    rec['cause'] = 'field-wider-than-64-bits'
+                ctx.violation(rec, 'decode(encode(v)) != canon(v), ids=%s' % c['ids'])
         if nontriv:
             ctx.sample({'ids': c['ids'], 'nsub': c['nsub'], 'values_subset0': c['val_toks'][0][:10],
                         'model_bits': c.get('model_enc', '')[:80]}, limit=3)
@@ -208,4 +213,11 @@ def replay(ctx, rec):
     eq, detail = P.compare_encode(cases[0])
     if not eq:
         ctx.violation({'kind': 'C02-encode-mismatch', 'case': c, 'detail': detail}, detail)
-    return {'equal': eq, 'detail': detail}
+    rt = P.roundtrip_holds(cases[0]) if cases[0].get('impl_enc', ('',))[0] == 'ok' else None
+    if rt is False:
+        rec2 = {'kind': 'C02-roundtrip', 'case': c}
+        i = cases[0].get('impl_dec')
+        if i and i[0] == 'err' and i[1] == 9 and P.wide_field_cause(cases[0]):
+            rec2['cause'] = 'field-wider-than-64-bits'
+        ctx.violation(rec2, 'decode(encode(v)) != canon(v), ids=%s' % c['ids'])
+    return {'equal': eq, 'detail': detail, 'roundtrip': rt}
